@@ -3,6 +3,9 @@ open SSVerif.Fsg
 #print axioms C13_closure_preserves_lang
 #print axioms C13_closure_preserves_best
 #print axioms C13_closure_preserves_real
+#print axioms C13_closure_never_lowers
+#print axioms C13_noSat_of_total
+#print axioms C13_satBest_unique
 #print axioms C13_closure_terminates
 #print axioms C13_closure_idempotent
 #print axioms C13_closure_unique
